@@ -72,6 +72,7 @@ def lockset_units(prop):
 #: which unit families each property draws on
 FAMILIES = {
     "C36": ["timeconv"],
+    "C38": ["marble"],
     "C41": ["bridge"],
     "C33": ["aio"],
     "C31": ["evloop"],
@@ -131,6 +132,8 @@ def units_for(prop, tier):
         us.append({"runner": "replay", "prop": prop, "id": "reactivex/subject/replaysubject.py::ReplaySubject"})
     if "timedextra" in fams:
         us.append({"runner": "timedextra", "prop": prop, "id": f"timed-operators-not-under-contract/{prop}"})
+    if "marble" in fams:
+        us.append({"runner": "marble", "prop": prop, "id": "reactivex/observable/marbles.py::parse+from_marbles+hot"})
     if "bridge" in fams:
         us.append({"runner": "bridge", "prop": prop, "id": "reactivex::bridges(future, callback, blocking)"})
     if "aio" in fams:
